@@ -1,4 +1,9 @@
-"""Reference grammar of the pyTRS standard Twp/Rge/Sec form (no pytrs import)."""
+"""Reference grammar of the pyTRS standard Twp/Rge/Sec form (no pytrs import).
+
+Digits are the ASCII digits only: a full-width or Arabic-Indic digit is not
+part of the standard form (and two strings that differ only in the script of
+a digit would otherwise both claim the same township number).
+"""
 
 import re
 
@@ -9,24 +14,24 @@ UNDEF_SEC = '__'
 ERR_TRS = 'XXXzXXXzXX'
 UNDEF_TRS = '___z___z__'
 
-_TWP = r'(?P<twp>(?P<twp_num>\d{1,3})(?P<ns>[ns])|XXXz|___z)'
-_RGE = r'(?P<rge>(?P<rge_num>\d{1,3})(?P<ew>[ew])|XXXz|___z)'
-_SEC = r'(?P<sec>\d{2}|XX|__)'
+_TWP = r'(?P<twp>(?P<twp_num>[0-9]{1,3})(?P<ns>[ns])|XXXz|___z)'
+_RGE = r'(?P<rge>(?P<rge_num>[0-9]{1,3})(?P<ew>[ew])|XXXz|___z)'
+_SEC = r'(?P<sec>[0-9]{2}|XX|__)'
 STD = re.compile(_TWP + _RGE + _SEC)
 # Same, direction letters in either case (documented case-insensitivity).
 STD_CI = re.compile(
-    r'(?P<twp>(?P<twp_num>\d{1,3})(?P<ns>[nsNS])|XXXz|___z)'
-    r'(?P<rge>(?P<rge_num>\d{1,3})(?P<ew>[ewEW])|XXXz|___z)'
-    r'(?P<sec>\d{2}|XX|__)')
+    r'(?P<twp>(?P<twp_num>[0-9]{1,3})(?P<ns>[nsNS])|XXXz|___z)'
+    r'(?P<rge>(?P<rge_num>[0-9]{1,3})(?P<ew>[ewEW])|XXXz|___z)'
+    r'(?P<sec>[0-9]{2}|XX|__)')
 # Twp+Rge with the section left out (accepted by design -> error section).
 NO_SEC_CI = re.compile(
-    r'(?P<twp>(?P<twp_num>\d{1,3})(?P<ns>[nsNS])|XXXz|___z)'
-    r'(?P<rge>(?P<rge_num>\d{1,3})(?P<ew>[ewEW])|XXXz|___z)')
+    r'(?P<twp>(?P<twp_num>[0-9]{1,3})(?P<ns>[nsNS])|XXXz|___z)'
+    r'(?P<rge>(?P<rge_num>[0-9]{1,3})(?P<ew>[ewEW])|XXXz|___z)')
 
 # What a tract produced from a description may carry: standard or error
 # placeholders, never 'undefined'.
 PARSED = re.compile(
-    r'(\d{1,3}[ns]|XXXz)(\d{1,3}[ew]|XXXz)(\d{2}|XX)')
+    r'([0-9]{1,3}[ns]|XXXz)([0-9]{1,3}[ew]|XXXz)([0-9]{2}|XX)')
 
 
 def decompose(trs):
